@@ -43,7 +43,8 @@ class copy:          # local stand-in so that every copy made here goes through 
 
 
 FUNC = (ast.FunctionDef, ast.AsyncFunctionDef)
-PURE_CALLS = {"isinstance", "issubclass", "callable", "len", "type", "bool", "hasattr", "id", "safe_eq", "is_list", "is_dict", "is_atom", "is_empty"}
+PURE_CALLS = {"isinstance", "issubclass", "callable", "len", "type", "bool", "hasattr", "id", "safe_eq", "is_list", "is_dict", "is_atom", "is_empty",
+              "cmatch", "cmatch2", "cpeek", "cpeek2", "in_map"}
 
 _INV = None
 
